@@ -350,18 +350,121 @@ def lite_read(sx, lite_s, blocks, mode):
     sx.check(sx.implies(sx.all([data_same, sx.neg(mac_same)]), got is None),
              pfx + ":modified-mac-accepted")
     hs, hr = halves_of(sent_data), halves_of(seen_data)
-    for j in range(len(hs)):
-        # exactly one 8-byte half of the data modified (any of its bits),
-        # everything else and the MAC untouched.  (Substitutions of several
-        # halves that are computed from intermediate cipher values collide
-        # by construction of a CBC-MAC; they are covered by the two
-        # "verifies" obligations above, not by this one.)
-        cond = sx.all([mac_same, sx.neg(sx.eq(sx.mkbytes(hr[j]), sx.mkbytes(hs[j])))] +
-                      [sx.eq(sx.mkbytes(hr[k]), sx.mkbytes(hs[k]))
-                       for k in range(len(hs)) if k != j])
-        sx.check(sx.implies(cond, got is None),
-                 pfx + ":modified-data-with-original-mac-accepted")
+    # exactly one 8-byte half of the data modified (any of its bits),
+    # everything else and the MAC untouched.  (Substitutions of several
+    # halves that are computed from intermediate cipher values collide by
+    # construction of a CBC-MAC; they are covered by the two "verifies"
+    # obligations above, not by this one.)
+    diff = [sx.neg(sx.eq(sx.mkbytes(hr[j]), sx.mkbytes(hs[j])))
+            for j in range(len(hs))]
+    one = sx.any([sx.all([diff[j]] + [sx.neg(diff[k]) for k in range(len(hs))
+                                      if k != j]) for j in range(len(hs))])
+    sx.check(sx.implies(sx.all([mac_same, one]), got is None),
+             pfx + ":modified-data-with-original-mac-accepted")
     return [lite_s, mode, got is not None]
+
+
+def lite_auth_tamper(sx, lite_s, which):
+    """the tag holds the key of p; the payload of the which-th response
+    during authenticate(p) is replaced in transit by arbitrary bytes
+    (Lite: 2 = ID+MAC read; Lite-S also 3 = WCNT read, 5 = STATE+MAC read)"""
+    pfx = "lites" if lite_s else "lite"
+    p = sx.bytes("p", 16)
+    sim, tag = lite_tag(sx, lite_s, ck_block(p),
+                        {0x82: list(sx.bytes("tag.id", 16))})
+    state = {'n': 0}
+
+    def tamper(sim, cmd, rsp):
+        state['n'] += 1
+        if state['n'] != which:
+            return rsp
+        state['sent'] = rsp
+        state['seen'] = sx.mkbytes(list(rsp[0:13]) +
+                                   list(sx.bytes("air", len(rsp) - 13)))
+        return state['seen']
+    sim.tamper = tamper
+    try:
+        r = tag.authenticate(p)
+    except Type3TagCommandError:
+        # only the tag refusing the write with MAC can end here: the reader
+        # used a substituted write counter
+        sx.check(lite_s and which == 3 and
+                 sim.log.count(("mac_a_refused", [0x92])) == 1,
+                 pfx + ":authenticate-TagCommandError-without-tag-error")
+        sx.reach(pfx + ":tampered-wcnt-refused-by-tag")
+        return "TagCommandError"
+    if not is_bool(r):
+        sx.check(False, pfx + ":authenticate-returns-non-bool")
+    if 'seen' not in state:
+        sx.check(False, pfx + ":authenticate-ended-before-response-%d" % which)
+    sent, seen = list(state['sent'])[13:], list(state['seen'])[13:]
+    untouched = sx.eq(sx.mkbytes(seen), sx.mkbytes(sent))
+    sx.check(sx.implies(untouched, r), pfx + ":authenticate-false-with-tag-key")
+    sx.check(sx.eq(tag.is_authenticated, r), pfx + ":is_authenticated-differs")
+    if lite_s:
+        sx.check(sx.implies(r, sim.ext_auth == 1),
+                 pfx + ":true-although-tag-did-not-accept-the-reader")
+    if which in (2, 5):
+        data, mac = seen[0:16], seen[16:24]
+        verifies = sx.eq(sx.mkbytes(mac), sx.mkbytes(sim.mac([data])))
+        sx.check(sx.implies(r, verifies),
+                 pfx + ":authenticate-true-although-mac-does-not-verify")
+        if which == 2:
+            sx.check(sx.implies(verifies, r),
+                     pfx + ":authenticate-false-although-mac-verifies")
+        else:
+            sx.check(sx.implies(r, data[0] == 1),
+                     pfx + ":true-although-state-says-not-authenticated")
+        data_same = sx.eq(sx.mkbytes(data), sx.mkbytes(sent[0:16]))
+        mac_same = sx.eq(sx.mkbytes(mac), sx.mkbytes(sent[16:24]))
+        sx.check(sx.implies(sx.all([data_same, sx.neg(mac_same)]), sx.neg(r)),
+                 pfx + ":authenticate-accepts-modified-mac")
+        d = [sx.neg(sx.eq(sx.mkbytes(data[i:i + 8]), sx.mkbytes(sent[i:i + 8])))
+             for i in (0, 8)]
+        one = sx.any([sx.all([d[0], sx.neg(d[1])]), sx.all([d[1], sx.neg(d[0])])])
+        sx.check(sx.implies(sx.all([mac_same, one]), sx.neg(r)),
+                 pfx + ":authenticate-accepts-modified-data-with-original-mac")
+    if sx.truth(r):
+        sx.reach(pfx + ":tampered-authenticated")
+    else:
+        sx.reach(pfx + ":tampered-refused")
+    return [lite_s, which, r]
+
+
+def lite_ndef_tamper(sx, lite_s):
+    """after authentication NDEF data is read with MAC; the MAC of the
+    attribute block read is replaced in transit.  A read whose MAC does not
+    verify must not be used: tag.ndef is None (or a TagCommandError), never a
+    crash and never an NDEF object."""
+    pfx = "lites" if lite_s else "lite"
+    p = sx.bytes("p", 16)
+    sim, tag = lite_tag(sx, lite_s, ck_block(p))
+    if not sx.truth(sx.eq(tag.authenticate(p), True)):
+        sx.check(False, pfx + ":authenticate-false-with-tag-key")
+    state = {}
+
+    def tamper(sim, cmd, rsp):
+        if cmd[1] != 0x06 or 'sent' in state:
+            return rsp
+        state['sent'] = rsp
+        n = len(rsp)
+        state['seen'] = sx.mkbytes(list(rsp[0:n - 16]) + list(sx.bytes("air.mac", 8)) +
+                                   list(rsp[n - 8:]))
+        return state['seen']
+    sim.tamper = tamper
+    try:
+        ndef = tag.ndef
+    except Type3TagCommandError:
+        sx.check(False, pfx + ":ndef-read-TagCommandError")
+    if 'sent' not in state:
+        sx.check(False, pfx + ":ndef-not-read")
+    n = len(state['sent'])
+    modified = sx.neg(sx.eq(sx.mkbytes(list(state['seen'])[n - 16:n - 8]),
+                            sx.mkbytes(list(state['sent'])[n - 16:n - 8])))
+    sx.check(sx.implies(modified, ndef is None),
+             pfx + ":ndef-from-read-with-wrong-mac")
+    sx.reach(pfx + ":ndef-read-with-mac")
+    return [lite_s, ndef is None]
 
 
 def lite_protect(sx, lite_s, plen, qlen, protect_from, pwtype):
@@ -453,11 +556,19 @@ def partitions(tier):
                   (1, [1, 2, 3]), (1, [0x82, 0x92])]
     for lite_s, blocks in reads:
         for mode in ("none", "payload", "header", "short", "long"):
-            if quick and lite_s and mode in ("header", "short", "long"):
+            if quick and mode in ("header", "short", "long") and \
+                    (lite_s or len(blocks) > 1):
                 continue
             parts.append(dict(
                 name="lite-read:%d:%s:%s" % (lite_s, "+".join("%02x" % b for b in blocks), mode),
                 fn="lite_read", params=dict(lite_s=lite_s, blocks=blocks, mode=mode)))
+    for lite_s, which in ((0, 2), (1, 2), (1, 3), (1, 5)):
+        parts.append(dict(name="lite-auth-tamper:%d:%d" % (lite_s, which),
+                          fn="lite_auth_tamper",
+                          params=dict(lite_s=lite_s, which=which)))
+    for lite_s in (0, 1):
+        parts.append(dict(name="lite-ndef-tamper:%d" % lite_s,
+                          fn="lite_ndef_tamper", params=dict(lite_s=lite_s)))
     prot = [(0, "bytes", 0, 16, 1), (0, "bytes", 16, 0, 1), (0, "bytearray", 16, 16, 14),
             (0, "bytes", 18, 17, 0), (0, "bytes", 7, 16, 1),
             (1, "bytes", 16, 16, 1), (1, "bytes", 0, 16, 1), (1, "str", 16, 16, 1),
@@ -475,10 +586,77 @@ def partitions(tier):
     return parts
 
 
-MUST_REACH = ["ntag:authenticated", "ntag:refused",
-              "ntag:short-password-rejected", "ntag:protected",
-              "ntag:second-accepted", "ntag:second-refused",
-              "ntag:pack-answer-replaced"]
-BOUNDS = {"quick": "tbd", "thorough": "tbd"}
-OUTSIDE = []
-ASSUMPTIONS = []
+MUST_REACH = [
+    "ntag:authenticated", "ntag:refused", "ntag:short-password-rejected",
+    "ntag:protect-short-password-rejected", "ntag:protected",
+    "ntag:second-accepted", "ntag:second-refused", "ntag:pack-answer-replaced",
+    "lite:authenticated", "lite:refused", "lite:short-password-rejected",
+    "lites:authenticated", "lites:refused", "lites:short-password-rejected",
+    "lite:read-returned", "lite:read-refused", "lite:malformed-response-refused",
+    "lites:read-returned", "lites:read-refused",
+    "lite:tampered-authenticated", "lite:tampered-refused",
+    "lites:tampered-authenticated", "lites:tampered-refused",
+    "lites:tampered-wcnt-refused-by-tag",
+    "lite:ndef-read-with-mac", "lites:ndef-read-with-mac",
+    "lite:protected", "lite:second-accepted", "lite:second-refused",
+    "lite:protect-short-password-rejected",
+    "lites:protected", "lites:second-accepted", "lites:second-refused",
+]
+BOUNDS = {
+    "quick": "NTAG210/212/213/215/216 and Ultralight EV1 MF0UL11/H11/21/H21: "
+    "authenticate(p) with password lengths {0,3,6,9}, bytes and bytearray, all "
+    "2^48 stored PWD||PACK x all password bytes, NAK surfaced as time-out or "
+    "as NAK byte; protect(p) (lengths 0,3,6,8; read_protect x protect_from in "
+    "{0,4,300}; arbitrary old PWD/PACK, CC page and CFG1) followed by "
+    "authenticate(q) (lengths 0,6,7), all p,q; PACK answer replaced in transit "
+    "by 0..3 arbitrary bytes.  FeliCa Lite and Lite-S over the ideal cipher: "
+    "authenticate(p) for all 2^128 card keys x all passwords of length "
+    "{0,5,16,20} x all challenges x all ID blocks (Lite-S: all write counters); "
+    "read_with_mac of 1..3 blocks {0},{3,4},{0,1,2},{ID} (Lite-S {5},{STATE}) "
+    "with all block contents, the response untouched / data+MAC blocks "
+    "replaced by arbitrary bytes / one header byte replaced / one byte short "
+    "or long; the payload of the 2nd (Lite, Lite-S), 3rd and 5th (Lite-S) "
+    "response inside authenticate() replaced by arbitrary bytes; tag.ndef "
+    "after authentication with the MAC replaced; protect(p) then "
+    "authenticate(q) for password lengths 0,7,16,18 (Lite-S also str passwords)",
+    "thorough": "as quick with password lengths {0,1,5,6,7,16} (NTAG) / "
+    "{0,1,15,16,17,32} (FeliCa), protect_from in {0,3,4,255,300} x "
+    "read_protect, PACK tampering on every product, read_with_mac block sets "
+    "{13},{REG,0},{2,2} and Lite-S {0,1},{1,2,3},{ID,STATE} in all five "
+    "tamper modes, more protect combinations",
+}
+OUTSIDE = [
+    "the DES / triple-DES computation itself (pyDes): replaced by an "
+    "uninterpreted collision-free block cipher in both modes",
+    "cryptographic strength: substitutions of several 8-byte halves computed "
+    "from intermediate cipher values, key search, replay of old challenges",
+    "MIFARE Ultralight C 3DES authentication (decrypt direction, not part of "
+    "the property's tag list)",
+    "enforcement of AUTH0/PROT/AUTHLIM and lock bits by the NTAG chip, "
+    "read/write permission bits of the FeliCa Lite MC block for user blocks",
+    "loss of a response / RF errors during authentication (retry behaviour is C16)",
+    "passwords of type str (Python 3) except FelicaLiteS.protect, which only "
+    "works with str",
+    "FeliCa Lite-S MAC_A for reads (nfcpy reads with the Lite-compatible MAC block)",
+]
+ASSUMPTIONS = [
+    "env.idealcipher.IdealCipher stands in for pyDes.triple_des (module "
+    "attribute of nfc.tag.tt3_sony) in symbolic AND native mode: E(key,block) "
+    "is an arbitrary function without collisions over all calls of a run; CBC "
+    "chaining is done by the stub as pyDes does; the DES computation is not covered",
+    "os.urandom in nfc.tag.tt3_sony is replaced by a source of symbolic bytes "
+    "(the challenge is universally quantified)",
+    "env.tt3lite_sim.LiteSim is the independent reading of the FeliCa Lite / "
+    "Lite-S manuals (session key, MAC, MAC_A, WCNT, STATE); with real 3DES it "
+    "reproduces the four MAC vectors recorded in tests/test_tag_tt3_sony.py",
+    "env.tt2nxp_sim.NxpSim is the reading of the NTAG21x / MF0ULx1 data sheets "
+    "(PWD_AUTH answers PACK iff PWD matches, otherwise NAK and the tag is mute "
+    "until sensed again; PWD/PACK read back as zero)",
+    "key derivation taken from the documentation of protect()/authenticate(): "
+    "NTAG first 4 bytes PWD, next 2 PACK, empty = FFFFFFFF 0000; FeliCa first "
+    "16 bytes, empty = 16 zero bytes, stored as two little-endian halves",
+    "'modification detected' is claimed for: MAC modified with data untouched, "
+    "and exactly one 8-byte half of the data modified with the rest and the "
+    "MAC untouched; in general for 'data is returned iff the received MAC "
+    "equals the tag model's MAC over the received data'",
+]
